@@ -12,6 +12,7 @@ mod basic;
 mod entry;
 mod iters;
 mod misc;
+pub mod slices;
 pub mod wide;
 
 pub type M<KD, const N: usize> = Map<<KD as Kind>::K, <KD as Kind>::V, N>;
